@@ -13,6 +13,8 @@ from ..refs import dist_points_to_triangles, fan_triangles
 
 PROPERTY = "C05"
 ENGINE = "E2"
+TECHNIQUE = "bounded-exhaustive enumeration of shapes x placements x complete half-integer query lattices with exact membership oracles; exhaustive ordered batches"
+LEVEL_TEXT = "Each point of a complete query lattice (plus feature-offset points) is decided by an exact oracle (plane signs, voxel occupancy, crossing number, distance to the core, rational quadratic form); batch/single/ordered-batch calls are enumerated completely for the early-exit paths."
 RULE = (
     "cases = 3-D shape (ConvexPolyhedron / Polyhedron copy over S3 lattice hulls, Polyhedron over VOX voxel solids and EXT "
     "extrusions, ConvexSpheropolyhedron over S3 with r/L in {0,.05,.5,3}, Sphere, Ellipsoid over CURV axes x centres) x "
